@@ -238,10 +238,10 @@ func forFor(f *forExpander) forStateFn {
 		f.forLineLabels = []string{}
 	}
 
+	// the labels before the count variable are ordinary labels of the first
+	// line the block emits, visible inside and outside the block
 	f.forLineLabelsToWrite = make([]string, len(f.forLineLabels))
-	for i, label := range f.forLineLabels {
-		f.forLineLabelsToWrite[i] = fmt.Sprintf("__for_%s_%s", f.forCountLabel, label)
-	}
+	copy(f.forLineLabelsToWrite, f.forLineLabels)
 
 	f.forCount = val
 	f.forIndex = 0 // should not be necessary
@@ -347,18 +347,7 @@ func forRof(f *forExpander) forStateFn {
 				if tok.val == f.forCountLabel {
 					f.tokens <- token{tokNumber, fmt.Sprintf("%d", i)}
 				} else {
-					found := false
-					for _, label := range f.forLineLabels {
-						forLabel := fmt.Sprintf("__for_%s_%s", f.forCountLabel, label)
-						if tok.val == label {
-							f.tokens <- token{tokText, forLabel}
-							found = true
-							break
-						}
-					}
-					if !found {
-						f.tokens <- tok
-					}
+					f.tokens <- tok
 				}
 			} else {
 				f.tokens <- tok
